@@ -1451,12 +1451,22 @@ func (c *compiler) VisitBinaryExpr(e *ast.BinaryExpr) ast.VisitResult {
 			c.latestReturn = c.cbb.NewSRem(lhs, divisor)
 			c.latestReturnType = c.ddpinttyp
 		}
-	case ast.BIN_LEFT_SHIFT:
+	case ast.BIN_LEFT_SHIFT, ast.BIN_RIGHT_SHIFT:
 		// the result has the type of lhs, so the shift count is cast to it
-		c.latestReturn = c.cbb.NewShl(lhs, c.numericCast(rhs, rhsTyp, lhsTyp))
-		c.latestReturnType = lhsTyp
-	case ast.BIN_RIGHT_SHIFT:
-		c.latestReturn = c.cbb.NewLShr(lhs, c.numericCast(rhs, rhsTyp, lhsTyp))
+		count := c.numericCast(rhs, rhsTyp, lhsTyp)
+		var width, noBits value.Value = newInt(64), zero
+		if lhsTyp == c.ddpbytetyp {
+			width, noBits = newIntT(ddpbyte, 8), zero8
+		}
+		var shifted value.Value
+		if e.Operator == ast.BIN_LEFT_SHIFT {
+			shifted = c.cbb.NewShl(lhs, count)
+		} else {
+			shifted = c.cbb.NewLShr(lhs, count)
+		}
+		// shifting by the width or more (or by a negative count) moves every bit out,
+		// the instruction itself is only defined for smaller counts
+		c.latestReturn = c.cbb.NewSelect(c.cbb.NewICmp(enum.IPredULT, count, width), shifted, noBits)
 		c.latestReturnType = lhsTyp
 	case ast.BIN_EQUAL:
 		c.compare_values(lhs, rhs, lhsTyp)
